@@ -33,7 +33,7 @@ Value& B64DECExpression::value(Context & ctx) const
   Value v(Value::type_literal);
 
   if (arg0.isNull())
-    return ctx.allocate(Value(Value::type_literal));
+    return ctx.allocate(Value(Value::type_tabchar));
   else
   {
     switch (arg0.type().major())
